@@ -17,6 +17,7 @@ template <class N, class V> static bool put(N& nd, int n, int m, const V& v) {
     TR.emit("{\"e\":\"PutB\",\"n\":%d,\"m\":%d}", n, m); bool ok = nd.try_put(v); TR.emit("{\"e\":\"PutE\",\"n\":%d,\"m\":%d,\"ok\":%d}", n, m, ok ? 1 : 0); return ok; }
 struct Body { int n; int ys; int operator()(int m) const { __atomic_add_fetch(&g_live, 1, __ATOMIC_SEQ_CST); TR.emit("{\"e\":\"BB\",\"n\":%d,\"m\":%d}", n, m);
     for (int i = 0; i < ys; i++) cosched::yield_point(); TR.emit("{\"e\":\"BE\",\"n\":%d,\"m\":%d}", n, m); __atomic_sub_fetch(&g_live, 1, __ATOMIC_SEQ_CST); return m; } };
+struct BodyL : Body { int operator()(int m) const noexcept { return Body::operator()(m); } };     // lightweight execution (inline in the sender's thread) requires a noexcept body
 static void waitret(graph& g, int lossless) { g.wait_for_all(); TR.emit("{\"e\":\"WaitRet\",\"live\":%d,\"lossless\":%d}", __atomic_load_n(&g_live, __ATOMIC_SEQ_CST), lossless); }
 
 // every scenario: thread 0 builds the graph, publishes it, all threads run their role, a harness barrier, then everybody waits (thread 0 logs)
@@ -41,7 +42,7 @@ static Scn chain(int variant) {
         if (id == 0) { G = new graph;
             if (variant == 0) { reg(1, new function_node<int, int>(*G, unlimited, Body{1, 2})); reg(2, new function_node<int, int>(*G, serial, Body{2, 3})); reg(3, new function_node<int, int>(*G, 2, Body{3, 2}));
                 node(1, "fn", 0); node(2, "fn", 1); node(3, "fn", 2); }
-            else if (variant == 1) { reg(1, new function_node<int, int>(*G, 2, Body{1, 3})); reg(2, new function_node<int, int, lightweight>(*G, serial, Body{2, 1})); reg(3, new function_node<int, int>(*G, serial, Body{3, 2}));
+            else if (variant == 1) { reg(1, new function_node<int, int>(*G, 2, Body{1, 3})); reg(2, new function_node<int, int, lightweight>(*G, serial, BodyL{{2, 1}})); reg(3, new function_node<int, int>(*G, serial, Body{3, 2}));
                 node(1, "fn", 2); node(2, "fn", 1); node(3, "fn", 1); }
             else { reg(1, new function_node<int, int, rejecting>(*G, serial, Body{1, 3})); reg(2, new function_node<int, int>(*G, unlimited, Body{2, 1})); reg(3, new function_node<int, int>(*G, serial, Body{3, 1}));
                 node(1, "fn", 1); node(2, "fn", 0); node(3, "fn", 1); }
@@ -231,7 +232,35 @@ static Scn limitc(int T) {  // queue -> limiter(T) -> serial function whose cont
         barrier(); if (id == 0) { waitret(*G, 1); release_helpers(); } else help(id);
     }, nullptr};
 }
+static Scn twolim() {      // one queue feeding TWO limiters (both take items by reservation), each with its own consumer: every message is consumed by exactly one
+    return {3, [](int id) {    // of the two consumers (they log as one logical node 4) - an item reserved by one limiter must not be forwarded to the other
+        static limiter_node<int>* L2[2]; static function_node<int, int>* CS[2];
+        if (id == 0) { G = new graph; Q[0] = new queue_node<int>(*G); node(1, "queue"); node(2, "pass"); node(3, "pass"); node(4, "fn", 0); edge(1, 2); edge(1, 3); edge(2, 4); edge(3, 4);
+            for (int k = 0; k < 2; k++) { L2[k] = new limiter_node<int>(*G, 1);
+                CS[k] = new function_node<int, int>(*G, serial, [k](int m) { __atomic_add_fetch(&g_live, 1, __ATOMIC_SEQ_CST); TR.emit("{\"e\":\"BB\",\"n\":4,\"m\":%d}", m);
+                    for (int i = 0; i < 3; i++) cosched::yield_point(); TR.emit("{\"e\":\"BE\",\"n\":4,\"m\":%d}", m); __atomic_sub_fetch(&g_live, 1, __ATOMIC_SEQ_CST); L2[k]->decrementer().try_put(continue_msg()); return m; });
+                make_edge(*Q[0], *L2[k]); make_edge(*L2[k], *CS[k]); }
+            publish(); }
+        await_graph();
+        for (int k = 0; k < 4; k++) { int m = 1 + id * 4 + k; msg(m); put(*Q[0], 1, m, m); }
+        barrier(); if (id == 0) { waitret(*G, 1); release_helpers(); } else help(id);
+    }, nullptr};
+}
+static Scn limitL(int T) {  // external puts straight into a limiter whose successor is LIGHTWEIGHT (its body runs inside the limiter's try_put and may send the decrement
+    return {3, [T](int id) {   // before that put has been counted: the early-decrement bookkeeping, my_future_decrement); only some messages are decremented
+        if (id == 0) { G = new graph; LM = new limiter_node<int>(*G, (size_t)T);
+            reg(3, new function_node<int, int, lightweight>(*G, unlimited, [](int m) noexcept { __atomic_add_fetch(&g_live, 1, __ATOMIC_SEQ_CST); TR.emit("{\"e\":\"BB\",\"n\":3,\"m\":%d}", m);
+                cosched::yield_point(); TR.emit("{\"e\":\"BE\",\"n\":3,\"m\":%d}", m); __atomic_sub_fetch(&g_live, 1, __ATOMIC_SEQ_CST);
+                if (m % 4 == 1) { TR.emit("{\"e\":\"DecB\",\"n\":2}"); LM->decrementer().try_put(continue_msg()); } return m; }));
+            node(2, "limiter", 0, T); node(3, "fn", 0); make_edge(*LM, *RX[3]); edge(2, 3); publish(); }
+        await_graph();
+        for (int k = 0; k < 4; k++) { int m = 1 + id * 4 + k; msg(m); put(*LM, 2, m, m); }
+        barrier(); if (id == 0) { waitret(*G, 1); release_helpers(); } else help(id);
+    }, nullptr};
+}
 static Scn make(const std::string& s) {
+    if (s == "limitL1") return limitL(1); if (s == "limitL2") return limitL(2);
+    if (s == "twolim") return twolim();
     if (s == "prio") return prio(); if (s == "reserve") return reserve(); if (s == "ow") return owr(false); if (s == "wo") return owr(true); if (s == "split") return route(false); if (s == "indexer") return route(true);
     if (s == "input") return inputn(); if (s == "async") return asyncn(); if (s == "limitc1") return limitc(1); if (s == "limitc2") return limitc(2);
     if (s == "chain0") return chain(0); if (s == "chain1") return chain(1); if (s == "chainR") return chain(2); if (s == "fan") return fan(); if (s == "fifo") return fifo();
